@@ -977,9 +977,13 @@ pub fn xpath_mutant(expr: &str) -> Outcome {
         let cd = CORPUS_DOCS.with(|c| c.borrow()[0].clone().unwrap());
         let mut ctx = Context::default();
         ctx.add_ns(Some("p"), "urn:p");
-        match xml_xpath::query(cd.doc.clone(), expr, &mut ctx) {
-            Ok(_) => "a value or an error".to_string(),
-            Err(_) => "a value or an error".to_string(),
+        let started = std::time::Instant::now();
+        let _ = xml_xpath::query(cd.doc.clone(), expr, &mut ctx);
+        // (the document has 20 nodes, the expression a few hundred characters at most: seconds mean a blow-up)
+        if started.elapsed().as_secs() >= 3 {
+            format!("took {} s", started.elapsed().as_secs())
+        } else {
+            "a value or an error".to_string()
         }
     })) {
         Ok(s) => s,
